@@ -97,24 +97,24 @@ def update_callable(
   # Otherwise, parameter validation logic would complain about argument
   # name not exists.
   new_signature_info = signatures.SignatureInfo(signature=new_signature)
-  object.__setattr__(buildable, '__signature__', new_signature)
-  object.__setattr__(buildable, '__signature_info__', new_signature_info)
+  invalid_args = []
   if not new_signature_info.has_var_keyword:
     invalid_args = [
         arg
         for arg in buildable.__arguments__.keys()
         if arg not in new_signature.parameters and isinstance(arg, str)
     ]
-    if invalid_args:
-      if drop_invalid_args:
-        for arg in invalid_args:
-          delattr(buildable, arg)
-      else:
-        raise TypeError(
-            f'Cannot switch to {new_callable} (from '
-            f'{buildable.__fn_or_cls__}) because the Buildable would '
-            f'have invalid arguments {invalid_args}.'
-        )
+    if invalid_args and not drop_invalid_args:
+      # Raise before anything is modified.
+      raise TypeError(
+          f'Cannot switch to {new_callable} (from '
+          f'{buildable.__fn_or_cls__}) because the Buildable would '
+          f'have invalid arguments {invalid_args}.'
+      )
+  object.__setattr__(buildable, '__signature__', new_signature)
+  object.__setattr__(buildable, '__signature_info__', new_signature_info)
+  for arg in invalid_args:
+    delattr(buildable, arg)
   object.__setattr__(buildable, '__fn_or_cls__', new_callable)
   buildable.__argument_history__.add_new_value('__fn_or_cls__', new_callable)
 
